@@ -42,14 +42,21 @@ namespace
     const Alphabet ALPHA_HDLC = {0x7E, 0x7E, 0x7D, 0x5E, 0x5F, 0x5D};
     // ... and one in which the stuffing byte escapes itself by doubling (code for the stuffing byte == the stuffing byte)
     const Alphabet ALPHA_DOUBLING = {'[', ']', '%', '<', '>', '%'};
-    enum { VAR_CFG_V1 = 0, VAR_CFG_V0 = 1, VAR_LEGACY = 2, VAR_CFG_PRINT = 3, VAR_CFG_HDLC = 4, VAR_CFG_DOUBLING = 5, VAR_N = 6 };
+    // ... and a zero-delimited one (frames separated by 0x00, as in serial protocols that keep zero out of the body)
+    const Alphabet ALPHA_ZERO = {0x00, 0x00, 0x01, 0x02, 0x02, 0x03};
+    enum { VAR_CFG_V1 = 0, VAR_CFG_V0 = 1, VAR_LEGACY = 2, VAR_CFG_PRINT = 3, VAR_CFG_HDLC = 4, VAR_CFG_DOUBLING = 5, VAR_CFG_ZERO = 6, VAR_N = 7 };
     const char *VAR_NAME[] = {"configurable/v1-alphabet", "configurable/v0-alphabet(start==stop)", "legacy-c", "configurable/printable-alphabet", "configurable/hdlc-like-alphabet(start==stop)",
-                              "configurable/doubling-alphabet(stuffing byte escapes itself)"};
-    const Alphabet &alpha_of(int v) { return v == VAR_CFG_V1 ? ALPHA_V1 : v == VAR_CFG_PRINT ? ALPHA_PRINT : v == VAR_CFG_HDLC ? ALPHA_HDLC : v == VAR_CFG_DOUBLING ? ALPHA_DOUBLING : ALPHA_V0; }
+                              "configurable/doubling-alphabet(stuffing byte escapes itself)", "configurable/zero-delimited-alphabet(start==stop==0x00)"};
+    const Alphabet &alpha_of(int v) { return v == VAR_CFG_V1 ? ALPHA_V1 : v == VAR_CFG_PRINT ? ALPHA_PRINT : v == VAR_CFG_HDLC ? ALPHA_HDLC : v == VAR_CFG_DOUBLING ? ALPHA_DOUBLING : v == VAR_CFG_ZERO ? ALPHA_ZERO : ALPHA_V0; }
+    // the two shipped alphabets as a translation unit sees them that asks for them during static initialisation, before the
+    // initialisers of the library's own translation units have run (a global receiver object in the application)
+    gstuff_context g_early_v1 __attribute__((init_priority(150))) = gstuff_context();
+    gstuff_context g_early_v0 __attribute__((init_priority(150))) = gstuff_context_v0();
+    bool g_use_early_contexts = false;
     gstuff_context ctx_of(int v)
     {
-        if (v == VAR_CFG_V1) return gstuff_context();
-        if (v == VAR_CFG_V0) return gstuff_context_v0();
+        if (v == VAR_CFG_V1) return g_use_early_contexts ? g_early_v1 : gstuff_context();
+        if (v == VAR_CFG_V0) return g_use_early_contexts ? g_early_v0 : gstuff_context_v0();
         const Alphabet &a = alpha_of(v);
         gstuff_context c;
         c.GSTUFF_START = (char)a.START;
@@ -871,7 +878,7 @@ namespace
             const Alphabet &a = alpha_of(variant);
             struct HabitsGuard
             {
-                ~HabitsGuard() { g_owner = OwnerHabits(); }
+                ~HabitsGuard() { g_owner = OwnerHabits(); g_use_early_contexts = false; }
             } habits_guard;
             if (variant == VAR_CFG_V1)
             {
@@ -890,6 +897,8 @@ namespace
                     violate(faults ? "C05/default-alphabet" : "C04/default-alphabet", "encode + decode with the default context in the gateway translation unit: %d of %d bytes delivered, frame %s, reference %s", dn, n0, hex(Bytes((uint8_t *)fr, (uint8_t *)fr + fl)).c_str(), hex(want).c_str());
                 probe("second_translation_unit_with_the_other_include_order");
             }
+            g_use_early_contexts = mod(p.c(4, 0), 3) == 1; // (reset by the guard below)
+            if (g_use_early_contexts && (variant == VAR_CFG_V1 || variant == VAR_CFG_V0)) probe("alphabet_taken_during_static_initialisation");
             g_owner.form = (int)mod(p.c(5, 0), 6);
             g_owner.relocate_every = (int)mod(p.c(6, 0), 24);
             g_owner.relocate_how = (int)mod(p.c(7, 0), 2);
